@@ -374,6 +374,7 @@ func c17Generate(t *rapid.T) c17Gen {
 		{"orders", "orders-eu", "orders.v2", "order"},
 	}).Draw(t, "family")
 	offsetsOn := map[string]bool{} // topics with recorded partition offsets or a stored config
+	lastCommit := map[string]c17Op{}
 	groupPool := []string{"g", "g1", "g.x", "grp-2"}
 	memberPool := []string{"m1", "m2", "g-123", "consumer-1-abc"}
 	topic := rapid.SampledFrom(topicPool)
@@ -409,13 +410,43 @@ func c17Generate(t *rapid.T) c17Gen {
 		return m
 	}
 	// rapid favours early elements: the operations the statement names come first
-	kinds := []string{"deleteTopic", "commit", "putGroup", "createTopic", "prefixScenario", "fetchOffset", "fetchGroup", "nextOffset", "updateOffsets",
+	kinds := []string{"deleteTopic", "commit", "putGroup", "createTopic", "prefixScenario", "staleOffsetScenario", "fetchOffset", "fetchGroup", "nextOffset", "updateOffsets",
 		"createPartitions", "listOffsets", "listGroups", "deleteGroup", "metadata", "refresh", "createTopic", "deleteTopic", "commit",
 		"putGroup", "updateConfig", "fetchConfig"}
 	nops := rapid.IntRange(3, 28).Draw(t, "nops")
 	for i := 0; i < nops; i++ {
 		op := c17Op{Kind: rapid.SampledFrom(kinds).Draw(t, "kind")}
 		switch op.Kind {
+		case "staleOffsetScenario":
+			// a next-offset recorded for a partition the topic does not have (UpdateOffsets does not
+			// validate it), delete, re-create / grow so that the partition exists, read it
+			tp := topic.Draw(t, "topic")
+			if committedOn[tp] && vfkit.Known(c17FindDelete) {
+				g.excluded[c17FindDelete] = true
+				op = c17Op{Kind: "listOffsets"}
+				break
+			}
+			emit := func(m c17Op) {
+				g.script.Ops = append(g.script.Ops, m)
+				g.trace = append(g.trace, c17ShowOp(m))
+			}
+			if !exists[tp] {
+				emit(c17Op{Kind: "createTopic", Topic: tp, N: int32(rapid.IntRange(1, 2).Draw(t, "n")), RF: 1})
+				exists[tp] = true
+			}
+			beyond := int32(rapid.IntRange(2, 4).Draw(t, "part-beyond")) // initial / created topics here have at most 2 partitions... or more: harmless
+			emit(c17Op{Kind: "updateOffsets", Topic: tp, Part: beyond, Off: rapid.Int64Range(0, 1000).Draw(t, "last")})
+			emit(c17Op{Kind: "deleteTopic", Topic: tp})
+			everDeleted[tp] = true
+			if rapid.Bool().Draw(t, "recreate-wide") {
+				emit(c17Op{Kind: "createTopic", Topic: tp, N: beyond + 1, RF: 1})
+			} else {
+				emit(c17Op{Kind: "createTopic", Topic: tp, N: 1, RF: 1})
+				emit(c17Op{Kind: "createPartitions", Topic: tp, N: beyond + 1})
+			}
+			g.classes["delete-then-recreate"] = true
+			g.classes["offset-on-missing-partition-then-recreate"] = true
+			op = c17Op{Kind: "nextOffset", Topic: tp, Part: beyond}
 		case "prefixScenario":
 			// state on a longer name, then delete a topic whose name is a proper prefix of it
 			var pairs [][2]string
@@ -518,6 +549,24 @@ func c17Generate(t *rapid.T) c17Gen {
 			op.Part = int32(rapid.IntRange(0, 2).Draw(t, "part"))
 			op.Off = rapid.OneOf(rapid.Int64Range(0, 5), rapid.Int64Range(0, 1<<62)).Draw(t, "off")
 			op.Meta = rapid.SampledFrom([]string{"", "m", " m ", "meta é", "{\"x\":1}", "\t", "<&>\u2028", "A\x00b"}).Draw(t, "meta")
+			if len(lastCommit) > 0 && rapid.Bool().Draw(t, "commit-on-committed-key") {
+				keys := make([]string, 0, len(lastCommit))
+				for k := range lastCommit {
+					keys = append(keys, k)
+				}
+				sort.Strings(keys)
+				prev := lastCommit[rapid.SampledFrom(keys).Draw(t, "ckey")]
+				op.Group, op.Topic, op.Part = prev.Group, prev.Topic, prev.Part
+				if rapid.Bool().Draw(t, "recommit-same-offset") {
+					// the position did not move but the metadata string may have (new owner, cleared metadata)
+					op.Off = prev.Off
+					if op.Meta != prev.Meta {
+						g.classes["recommit-same-offset-other-metadata"] = true
+					}
+				}
+			}
+			ck := fmt.Sprintf("%s/%s/%d", op.Group, op.Topic, op.Part)
+			lastCommit[ck] = op
 			committedOn[op.Topic] = true
 		case "fetchOffset":
 			op.Group, op.Topic = group.Draw(t, "group"), pick("topic", everDeleted, true)
